@@ -459,32 +459,44 @@ Proof.
   destruct (slot Sty h2 o) as [r|] eqn:E; simpl; [|reflexivity]. rewrite B; [reflexivity|]. apply (Hwf o r E).
 Qed.
 
+Lemma enter_style_spec o st h :
+  wf_heap h -> (match st with Some r => r < fresh Sty h | None => True end) ->
+  let h2 := enter_style Sty o st true h in
+  (forall o', o' <> o -> slot Sty h2 o' = slot Sty h o') /\
+  (forall r, r < fresh Sty h -> cell Sty h2 r = cell Sty h r) /\
+  fresh Sty h <= fresh Sty h2 /\
+  (forall r, slot Sty h2 o = Some r -> fresh Sty h <= r).
+Proof.
+  intros Hwf Hst. unfold enter_style. destruct st as [r|]; simpl.
+  - repeat split.
+    + intros o' Hne. destruct (o' =? o) eqn:E; [lia|reflexivity].
+    + intros r' Hr'. destruct (r' =? fresh Sty h) eqn:E; [lia|reflexivity].
+    + lia.
+    + intros r'. rewrite Z.eqb_refl. intros E. inversion E. lia.
+  - repeat split.
+    + intros o' Hne. destruct (o' =? o) eqn:E; [lia|reflexivity].
+    + lia.
+    + intros r'. rewrite Z.eqb_refl. discriminate.
+Qed.
+
 Lemma style_temp_edit_restores o st body h :
   wf_heap h -> (match st with Some r => r < fresh Sty h | None => True end) ->
   body_frame o body ->
   same_view (fst (style_temp_edit Sty o st true body h)) h.
 Proof.
   intros Hwf Hst Hb. unfold style_temp_edit.
-  destruct st as [r|].
-  - simpl alloc_copy. cbv beta iota zeta.
-    set (h2 := set_slot Sty _ o (Some (fresh Sty (set_slot Sty h o (Some r))))).
-    specialize (Hb h2). destruct (body h2) as [h3 out] eqn:Eb. simpl in Hb. destruct Hb as [F1 [F2 F3]].
-    simpl. repeat split; simpl.
-    + intros o'. destruct (o' =? o) eqn:E; [apply Z.eqb_eq in E; subst; reflexivity|].
-      rewrite F1 by lia. unfold h2; simpl. rewrite E. rewrite E. reflexivity.
-    + intros r' Hr'. rewrite F2.
-      * unfold h2; simpl. destruct (r' =? fresh Sty h) eqn:E; [lia|reflexivity].
-      * unfold h2; simpl. lia.
-      * unfold h2; simpl. rewrite Z.eqb_refl. intros E. inversion E. lia.
-    + unfold h2 in F3; simpl in F3. lia.
-  - set (h2 := set_slot Sty h o None).
-    specialize (Hb h2). destruct (body h2) as [h3 out] eqn:Eb. simpl in Hb. destruct Hb as [F1 [F2 F3]].
-    simpl. repeat split; simpl.
-    + intros o'. destruct (o' =? o) eqn:E; [apply Z.eqb_eq in E; subst; reflexivity|].
-      rewrite F1 by lia. unfold h2; simpl. rewrite E. reflexivity.
-    + intros r' Hr'. rewrite F2; [reflexivity|exact Hr'|].
-      unfold h2; simpl. rewrite Z.eqb_refl. discriminate.
-    + exact F3.
+  pose proof (enter_style_spec o st h Hwf Hst) as Hent. cbv zeta in Hent.
+  set (h2 := enter_style Sty o st true h) in *.
+  destruct Hent as [E1 [E2 [E3 E4]]].
+  specialize (Hb h2). cbv zeta in Hb. destruct Hb as [F1 [F2 F3]].
+  cbn [fst]. repeat split; cbn [slot cell fresh set_slot].
+  - intros o'. destruct (o' =? o) eqn:E; [apply Z.eqb_eq in E; subst; reflexivity|].
+    rewrite F1 by lia. apply E1. lia.
+  - intros r' Hr'. rewrite F2.
+    + apply E2, Hr'.
+    + lia.
+    + intros Heq. symmetry in Heq. apply E4 in Heq. lia.
+  - lia.
 Qed.
 
 Lemma show_loop_restores jobs : forall h,
@@ -494,9 +506,9 @@ Lemma show_loop_restores jobs : forall h,
             body_frame (fst (fst j)) (snd j)) jobs ->
   same_view (fst (show_loop Sty jobs h)) h.
 Proof.
-  induction jobs as [|[[o st] body] rest IH]; intros h Hwf Hall; simpl.
+  induction jobs as [|[[o st] body] rest IH]; intros h Hwf Hall; cbn [show_loop].
   - apply same_view_refl.
-  - inversion Hall as [|? ? [Hst Hb] Hrest]; subst. simpl in Hst, Hb.
+  - inversion Hall as [|? ? [Hst Hb] Hrest]; subst. cbn [fst snd] in Hst, Hb.
     pose proof (style_temp_edit_restores o st body h Hwf Hst Hb) as Hv.
     destruct (style_temp_edit Sty o st true body h) as [h' out] eqn:E. simpl in Hv.
     destruct out; [|exact Hv].
@@ -520,3 +532,63 @@ Proof.
 Qed.
 
 End StyleProofs.
+
+(* ================================================================== non-vacuity: Z^3 x signed permutations
+   with integer scalars satisfies the scaling laws (the instance the correspondence check executes) *)
+From MV Require Import Lib.OctZ Model.DisplayExec.
+
+Lemma mact_smul m a v : mact m (v3smul a v) = v3smul a (mact m v).
+Proof.
+  destruct m as [[[[a0 a1] a2] [[a3 a4] a5]] [[a6 a7] a8]]. destruct v as [[v0 v1] v2].
+  unfold mact, v3smul, dot3. apply v3_ext; ring.
+Qed.
+
+Global Instance OctScaleLaws : ScaleLaws OctOps OctScale.
+Proof.
+  constructor; cbn [Sc sone smulS sis_one smul OctScale V G act vadd OctOps].
+  - intros [[x y] z]. unfold v3smul. apply v3_ext; ring.
+  - intros a b [[x y] z]. unfold v3smul. apply v3_ext; ring.
+  - intros a [[x y] z] [[x' y'] z']. unfold v3smul, v3add. apply v3_ext; ring.
+  - intros g a v. unfold oact. apply mact_smul.
+  - intros a H. apply Z.eqb_eq in H. exact H.
+Qed.
+
+(* a concrete show() run: two objects, the first body edits the temporary style copy and re-points the
+   slot, the second raises after editing -- the hypotheses of show_restores_style_lem hold *)
+Definition ex_heap : heap Z :=
+  mkHeap Z (fun o => if o =? 0 then Some 0 else if o =? 1 then Some 1 else None) (fun r => 10 + r) 4.
+Definition ex_body_edit (o : Z) (res : outcome) (h : heap Z) : heap Z * outcome :=
+  (mkHeap Z (slot Z h) (fun r => if (match slot Z h o with Some r0 => r =? r0 | None => false end)
+                                 then 99 else cell Z h r) (fresh Z h), res).
+Definition ex_jobs : list (Z * option Z * (heap Z -> heap Z * outcome)) :=
+  [(0, Some 2, ex_body_edit 0 Returned); (1, Some 3, ex_body_edit 1 Raised); (0, None, ex_body_edit 0 Returned)].
+
+Lemma ex_body_frame o res : body_frame Z o (ex_body_edit o res).
+Proof.
+  intros h. cbn. repeat split; auto; try lia.
+  intros r Hr Hne. destruct (slot Z h o) as [r0|]; [|reflexivity].
+  destruct (r =? r0) eqn:E; [|reflexivity]. apply Z.eqb_eq in E. subst. congruence.
+Qed.
+
+Lemma ex_show_hyps :
+  wf_heap Z ex_heap /\
+  Forall (fun j : Z * option Z * (heap Z -> heap Z * outcome) =>
+            (match snd (fst j) with Some r => r < fresh Z ex_heap | None => True end) /\
+            body_frame Z (fst (fst j)) (snd j)) ex_jobs /\
+  snd (show_loop Z ex_jobs ex_heap) = Raised /\
+  fresh Z (fst (show_loop Z ex_jobs ex_heap)) = 6.
+Proof.
+  split.
+  - intros o r. cbn. destruct (o =? 0); [intros H; inversion H; lia|].
+    destruct (o =? 1); [intros H; inversion H; lia|discriminate].
+  - split; [|split; vm_compute; reflexivity].
+    unfold ex_jobs. repeat (apply Forall_cons; [split; [cbn; try lia; exact I|apply ex_body_frame]|]). apply Forall_nil.
+Qed.
+
+Section PathShown.
+Context {O : RigidOps} {L : RigidLaws O} {SO : ScaleOps O} {SL : ScaleLaws O SO}.
+Lemma path_trace_shown_lem (path : list pose) (f : Sc) :
+  path_trace_shown path f =
+  if 1 <? zlen path then Some (map (fun pq : pose => smul f (fst pq)) path) else None.
+Proof. unfold path_trace_shown. rewrite path_trace_lem. reflexivity. Qed.
+End PathShown.
